@@ -390,7 +390,7 @@ fn is_simple_run(r: &[char]) -> bool {
     match r.get(k) { Some(&c) => is_letter(c) && r[k + 1..].iter().all(|&d| is_letter(d) || d.is_ascii_digit()), None => false }
 }
 fn is_plain_run(r: &[char]) -> bool { !r.is_empty() && is_letter(r[0]) && r[1..].iter().all(|&d| is_letter(d) || d.is_ascii_digit()) }
-/// `tailToks` of Rooc/Syntax/Tok.lean: are the `_seg` pieces behind a base name / a `}` readable?
+/// `compoundTail` of Rooc/Syntax/Tok.lean: are the `_seg` pieces behind a base name / a `}` readable?
 fn tail_ok(segs: &[&[char]], next: &[char]) -> bool {
     for (i, seg) in segs.iter().enumerate() {
         let last = i + 1 == segs.len();
